@@ -548,5 +548,5 @@ pub static TABLES: EngineDef = EngineDef {
     shrink: shrink_erased::<Tables>,
     summarize: summarize_erased::<Tables>,
     describe,
-    runs: |_| (40_000, 1_200_000),
+    runs: |_| (150_000, 4_000_000),
 };
